@@ -154,7 +154,9 @@ class GR:
                           "c" + hx("cv"), "z", "u7", "o" + hx("owned"),
                           # custom values stringified through the bundle's formatter memoizer (equal-length tags collide
                           # under the argument type's deliberately weak hash; `bad*` fails to construct)
-                          "m" + hx("ok1"), "m" + hx("ok2"), "m" + hx("bad1")])
+                          "m" + hx("ok1"), "m" + hx("ok2"), "m" + hx("bad1"),
+                          # memoized through a formatter kind whose ARGUMENT TYPE is that of the bundle's plural rules
+                          "m" + hx("rc1"), "m" + hx("ro1")])
             out.append("%s=%s" % (hx(k), v))
         return "&".join(out)
 
@@ -289,6 +291,13 @@ def handwritten():
         ("m0 = { FAIL() } { NONE() } { CUSTOM(\"q\") } { IDENT($x) } { IDENT() } { ARGS(1, \"s\", $x, x: 1) }\n", "%s=c%s" % (hx("x"), hx("cv"))),
         ("m0 = { \"\\u0041\\\\\" } { \"\\uD800\" } {\"é\"}\n", "."),
         ("m0 = { $x ->\n [a] A\n [b] B\n }\n", "."),
+        # cycles that come back to the ROOT pattern of the request, leaving it through every kind of first placeable
+        # (select variant, call argument, nested placeable, term, attribute), as first / later element of the root
+        ("m0 = x { $n ->\n [one] { m0 }\n *[other] y\n }\nm1 = pre { IDENT(m1) } post\nm2 = a { { m2 } } b\n"
+         "m3 = x { $n ->\n [one] { -t0 }\n *[other] y\n }\n-t0 = { m3 } t\nm4 = { $n } then { m4 }\nm5 = { ARGS(m5.a, 1) } e\n    .a = { m5 } at\n",
+         "%s=i1" % hx("n")),
+        ("m0 = { $n ->\n [one] { m0 }\n *[other] y\n } tail\nm1 = { IDENT(m1) }{ \"\" }\nm2 = { { { m2 } } } b\nm3 = { -t0(x: 1) } c\n-t0 = { m3 }{ $x }\n"
+         "m4 = { m5 } d\nm5 = e { $n ->\n *[other] { m4 }\n }\n", "%s=i1" % hx("n")),
         ("m0 = { $s ->\n [inf] I\n [NaN] N\n [infinity] Y\n *[other] O\n }\nm1 = { \"inf\" ->\n [inf] I\n *[o] O\n }\nm2 = { \"NaN\" ->\n [nan] l\n [NaN] N\n *[o] O\n }\nm3 = { $n ->\n [inf] I\n [one] 1\n *[o] O\n }\n", "%s=s%s&%s=i1" % (hx("s"), hx("infinity"), hx("n"))),
     ]
     for (res, args) in progs:
